@@ -1713,7 +1713,7 @@ class VM:
 
             # Create a new function that wraps the original
             bound_func = JSFunction(
-                name=func.name,
+                name="bound " + func.name,
                 params=func.params[
                     len(bound_args) :
                 ],  # Remaining params after bound args
@@ -2881,7 +2881,10 @@ class VM:
         # the innermost `this` (first bind, or the lexical this of an arrow) wins and
         # bound arguments accumulate in binding order
         while True:
-            if hasattr(func, "_bound_this"):
+            # (`new` on a bound function constructs the target: the bound this is ignored)
+            if hasattr(func, "_bound_this") and not (
+                is_constructor and hasattr(func, "_original_func")
+            ):
                 this_val = func._bound_this
             if hasattr(func, "_bound_args"):
                 args = list(func._bound_args) + list(args)
@@ -2963,7 +2966,8 @@ class VM:
             obj = JSObject()
             # Set prototype from constructor's prototype property; when that is not
             # an object the instance inherits from Object.prototype
-            proto = getattr(constructor, "_prototype", None)
+            # (a bound function has none of its own: the target's is used)
+            proto = getattr(target, "_prototype", None)
             if not isinstance(proto, JSObject):
                 object_constructor = self.globals.get("Object")
                 proto = getattr(object_constructor, "_prototype", None)
